@@ -36,6 +36,56 @@ def rerun_findings(ctx):
             ctx.known_finding(f['id'], f['what'])
 
 
+def sm_vs_library(ctx, cases):
+    """The X.691 specification model (Per/X691.v) against uper.py directly: on every generated case inside
+    x691_scope the library's octets must be the specification's (this is the composition of the correspondence
+    IM = library with the theorem IM = SM, executed end to end); the share of cases inside the scope is reported."""
+    from common import to_coq
+    rows = []
+    for c in cases:
+        r = lib.attempt(lib.compile_string, c.text, 'uper', numeric_enums=c.numeric)
+        if r[0] != 'ok':
+            continue
+        e = lib.attempt(r[1].encode, c.tname, c.api_value())
+        rows.append((c, e))
+    shards, index = [], []
+    for s0 in range(0, len(rows), 150):
+        part = rows[s0:s0 + 150]
+        envs, lines, cells = {}, [], []
+        for c, e in part:
+            key = (id(c.mod), c.numeric)
+            if key not in envs:
+                envs[key] = 'env%d' % len(envs)
+                lines.append('Definition %s : env := %s.' % (envs[key], to_coq(G.coq_env(c.mod, c.numeric))))
+            ty = to_coq(G.coq_type(c.rt, c.t, c.numeric))
+            val = to_coq(G.coq_value(c.rt, c.t, c.api_value()))
+            nm = 'true' if c.numeric else 'false'
+            want = to_coq(bytes(e[1])) if e[0] == 'ok' else '[]'
+            cells.append('(x691_scope %s %s 40 %s %s, match x691_encode_octets %s %s 40 %s %s with Ok b => '
+                         'if list_eqb Z.eqb b %s then 1 else 0 | Err _ => 2 end)' % (
+                             nm, envs[key], ty, val, nm, envs[key], ty, val, want))
+        lines.append('Eval vm_compute in [%s].' % ';\n '.join(cells))
+        shards.append('\n'.join(lines) + '\n')
+        index.append(part)
+    res = CC.run_shards(ctx, 'x691', ['Base.Prelude', 'Base.Corr', 'Syntax.Asn1', 'Per.UperImpl', 'Per.X691', 'Per.X691Refine'], shards)
+    for part, r in zip(index, res):
+        (cells,) = r
+        for (c, e), (inscope, verdict) in zip(part, cells):
+            ctx.evaluations += 1
+            inscope = inscope in (True, 'true')
+            ctx.count('x691-scope:%s' % ('in' if inscope else 'out'))
+            if not inscope:
+                continue
+            empty = e[0] == 'ok' and e[1] == b''
+            if e[0] == 'ok' and verdict != 1 and not empty:
+                ctx.violation('uper: a value inside x691_scope is encoded as %s, not as the X.691 specification model '
+                              'prescribes' % e[1].hex()[:80],
+                              c.replay(codec='uper', kind='x691', lib=e[1].hex()))
+            elif e[0] != 'ok' and verdict != 2:
+                ctx.violation('uper: a value inside x691_scope that the specification model encodes is rejected: %s %s'
+                              % (e[1], e[2][:100]), c.replay(codec='uper', kind='x691'))
+
+
 def run(ctx):
     if ctx.replay:
         doc = json.load(open(ctx.replay))['replay']
@@ -50,6 +100,7 @@ def run(ctx):
     opts = G.Opts(**U.OPTS)
     cases = CC.gen_cases(ctx, opts, n, 3)
     CC.corr_encode_decode(ctx, U, cases)
+    sm_vs_library(ctx, cases)
     if not ctx.quick:
         big = G.Opts(big=True, max_depth=1, n_types=2, **U.OPTS)
         CC.corr_encode_decode(ctx, U, CC.gen_cases(ctx, big, 40, 2), tag='corr-big', shard=20)
@@ -60,6 +111,6 @@ def run(ctx):
     boundary.run(ctx, ['uper', 'per'], mods, roundtrip=False,
                  lengths=None if not ctx.quick else 'quick')
     rerun_findings(ctx)
-    ctx.extra['open_theorems'] = ['uper_refines_x691 (whole types): OPEN', 'aligned PER: modelled (Per/PerImpl.v) and compared bit for bit; its round-trip/prefix theorems are OPEN']
+    ctx.extra['open_theorems'] = ['aligned PER: refinement to an aligned serialiser of the X.691 field list is OPEN']
     if not ok:
         common.proof_broken(ctx)
